@@ -281,9 +281,10 @@ class WindowGenerator(object):
 
         for first, last in self.firstlast:
             amp = np.ones(last - first)
-            # the last window may be shorter than twice the overlap: its ramp-up must win over its flat end
-            amp[-self.overlap:] = 1 if last == self.ns else np.flipud(w)
-            amp[:self.overlap] = 1 if first == 0 else w
+            if self.overlap > 0:
+                # the last window may be shorter than twice the overlap: its ramp-up must win over its flat end
+                amp[-self.overlap:] = 1 if last == self.ns else np.flipud(w)
+                amp[:self.overlap] = 1 if first == 0 else w
             yield (first, last, amp)
 
     @property
